@@ -1,10 +1,13 @@
 """C13 — every tag report and reader event reaches EdgeX exactly once.
-proof: coq/Props/C13.v over coq/Driver/Publish.v (handlers decode, one publisher goroutine per
-decodable message, publishers complete in any order); tie: 2-3 real LLRPDevices created by the
-driver on one asynchronous-values channel, scripted loopback readers sending reports / events /
-undecodable messages / keep-alives while commands are in flight; the values read from the channel
-are matched (device name, resource name, decoded content) against what was sent, compared with the
-extracted model and judged directly."""
+proof: coq/Props/C13.v over coq/Driver/Publish.v (handlers read the announced payload and decode it,
+one publisher goroutine per completely received decodable message, publishers complete in any order;
+only a connection event's publisher looks at the operating-state flag and waits for the SDK);
+tie: 1-3 real LLRPDevices created by the driver (AddDevice, or Driver.Start for devices registered
+UP / DOWN) on one asynchronous-values channel, an SDK whose operating-state calls are recorded and
+per device prompt / held back / slow / failing, scripted loopback readers sending reports / events /
+undecodable messages / keep-alives / messages cut off by the end of the connection while commands
+are in flight; the values read from the channel are matched (device name, resource name, content
+field by field) against what was sent, compared with the extracted model and judged directly."""
 import collections, json, random, re
 import vlib
 
@@ -15,9 +18,23 @@ CONN_MODES = ["s", "x", "y", "sx", "xs", "ys", "xy", "ss", "yx",
               "1", "2", "3", "4", "n", "o", "1s", "2x", "o3", "n4", "s2", "y1", "4o"]
 
 
+CUT_ENDS = "fffhr"
+
+DEV_FLAGS = ["d", "dh", "df", "dhf", "dl", "s", "sh", "h", "f", "u", "du", "dhu", "dfu", "hg", "dg", "dlf", "su"]
+
+
 def gen_scenario(rnd, sid, ndev, nsteps):
     steps = []
+    held = set()
     for d in range(ndev):
+        # what EdgeX and the reader are like: the device already registered (UP / DOWN) when the
+        # service starts, the SDK's operating-state call slow (held until released / 25 ms) or
+        # failing, a reader without UTC clock
+        if rnd.random() < 0.45:
+            fl = rnd.choice(DEV_FLAGS)
+            steps.append("%d~%s" % (d, fl))
+            if "h" in fl:
+                held.add(d)
         # some devices' first connections go wrong (SetReaderConfig rejected, connection dropped
         # after the connection event / on SetReaderConfig) before the one that works
         if rnd.random() < 0.35:
@@ -34,10 +51,21 @@ def gen_scenario(rnd, sid, ndev, nsteps):
         if d == removed:
             continue
         x = rnd.random()
-        if x < 0.38:
+        if d in held and rnd.random() < 0.04:
+            held.discard(d)
+            steps.append("%dH" % d)         # the SDK's operating-state calls return
+        if x < 0.36:
             steps.append("%dR%d" % (d, rnd.randrange(9)))
+        elif x < 0.60:
+            steps.append("%dE%d" % (d, rnd.randrange(14)))
         elif x < 0.62:
-            steps.append("%dE%d" % (d, rnd.randrange(7)))
+            if reconnects < 3:
+                # a message is begun and its connection ends before the rest of it: at every class
+                # of offset, by end of stream / close / reset
+                reconnects += 1
+                kind = rnd.choice("RRRE")
+                steps.append("%dQ%s%d%s%d" % (d, rnd.choice(CUT_ENDS), rnd.randrange(10), kind,
+                                               rnd.randrange(9 if kind == "R" else 14)))
         elif x < 0.70:
             steps.append("%dr%d" % (d, rnd.randrange(3)))
         elif x < 0.76:
@@ -59,7 +87,8 @@ def gen_scenario(rnd, sid, ndev, nsteps):
         elif x < 0.985:
             if reconnects < 3:          # outage: the connection goes away, the device reconnects
                 reconnects += 1
-                steps.append("%dX" % d)
+                # (Y: connections are refused until the device has been marked DOWN)
+                steps.append("%d%s" % (d, rnd.choice("XXY")))
         elif x < 0.993:
             if floods < 2:
                 # the reader's receive side stalls while a large request is under way (the client's
@@ -69,9 +98,11 @@ def gen_scenario(rnd, sid, ndev, nsteps):
                 steps.append("%dF%d" % (d, rnd.randrange(3)))
                 for _ in range(rnd.randrange(2, 7)):
                     kind = rnd.choice("RRREEreK")
-                    v = rnd.randrange(9 if kind == "R" else 7)
-                    if kind == "E" and v == 4:
-                        v = 5   # (a mid-stream connection success waits for its SetReaderConfig exchange)
+                    v = rnd.randrange(9 if kind == "R" else 14)
+                    if kind in "re":
+                        v %= 3
+                    if kind == "E" and v in (4, 11):
+                        v += 1   # (a mid-stream connection success waits for its SetReaderConfig exchange)
                     steps.append("%d%s%d" % (d, kind, v))
                 steps.append("%dG" % d)
         elif ndev >= 2 and removed is None and k > nsteps // 3:
@@ -100,11 +131,14 @@ def expected_tokens(scn):
         if d in removed:
             continue
         kind = st[3] if st[1] == "@" else st[1]
+        if kind in "+~":
+            continue
         if kind in "RM":
             exp.append("%d:RO:%d" % (d, i))
         elif kind == "E":
             exp.append("%d:REN:%d" % (d, i))
-        elif kind == "X" or (kind == "U" and int(st[2:]) % 2 == 1):
+        elif kind in "XYQ" or (kind == "U" and int(st[2:]) % 2 == 1):
+            # (Q: nothing for the message that was cut off; the device reconnects)
             exp.append("%d:REN:%d" % (d, 2000 + 100 * d + nconn[d]))
             nconn[d] += 1
         elif kind == "Z":
@@ -146,6 +180,15 @@ def judge(scn, line):
             continue
         if t.startswith("!badgen"):
             continue
+        if t.startswith("!partial"):
+            _, d, r, i, cut = t.split(":")
+            bad.append(("published-incomplete-message", "a reading (%s of device %s) was published for message %s although its connection ended "
+                        "after %s bytes of its payload: the content is the decoding of the part that had arrived" % (r, d, i, cut)))
+            continue
+        if t.startswith("!differs"):
+            _, d, r, i, fields = t.split(":", 4)
+            bad.append(("content-differs", "the reading published for message %s (%s of device %s) differs from the decoding of the bytes the reader sent in %s" % (i, r, d, fields)))
+            continue
         if t.startswith("!decoder-vs-source"):
             bad.append(("content-differs", "the library's decoding of a message's bytes differs from the value that was encoded (%s)" % t))
             continue
@@ -175,7 +218,8 @@ def run(tier, seed, replay=None):
         "the llrp.Client calls a registered handler once per received message of its type, synchronously in the read loop (C03/C04 are about the client); the model starts from 'device d's handler is called with message m'",
         "message bytes are built with the library's MarshalBinary and the expected content is the library's UnmarshalBinary of those bytes (the codec itself is C01/C02's subject)",
         "the SDK takes every value offered on the asynchronous-values channel (the harness reads it continuously, with small random delays)",
-        "content equality is reflect.DeepEqual on the published value; for an uptime-stamped event a UTC time within the run's wall-clock window is accepted as well as the unchanged 0 (device.go computes such a time but on a copy, see notes/C13.md)",
+        "content equality is reflect.DeepEqual of the published value with the decoding of the bytes the scripted reader sent, field by field (also for uptime-stamped events and reports: no time of the driver's clock is accepted in place of what the reader sent)",
+        "an end of connection is produced over loopback TCP by shutting down the reader's sending side, closing its socket, or resetting it (SO_LINGER 0); before a close/reset the harness waits until what was sent before has been published",
         "undecodable = a TLV length beyond the buffer / wrong first parameter / trailing bytes; TLV lengths 0..3 are excluded here (C11)",
     ]
     vlib.proof_part(res, PID)
@@ -204,7 +248,25 @@ def run(tier, seed, replay=None):
                 "12 3 23 0R1 1R2 2R3 0P65 0R4 1R5 2R6 0E0 1E1 2E2 0R7 1R8 2R0 0R2 1R3 2R4 0E5 1E6 2E3 0R1 1R1 2R1",
                 "10 2 21 0R1 0F0 0R2 0E1 0K 0R3 0G 0R4 1R1 1F2 1E2 1R5 1G 1E3 0F1 0R6 0e0 0E5 0G 0R0",
                 "2 2 13 0R1 1M 0C0 0R2 1L 1R3 0E0 1R4 0K 1E1",
-                "1 3 12 " + " ".join("%d%s%d" % (d, k, v) for v in range(7) for k in "RE" for d in range(3))]
+                "1 3 12 " + " ".join("%d%s%d" % (d, k, v) for v in range(7) for k in "RE" for d in range(3)),
+                # devices registered DOWN / UP at service start, SDK operating-state calls held back, slow, failing;
+                # devices marked DOWN by refused connections; reports and events meanwhile
+                "9001 2 31 0~dh 1~df 0R1 0R2 1R3 0E1 1E9 0R4 1R5 0C0 0H 0R6 1Y 1R7 0E8 1E12 1R0",
+                "9002 3 32 0~d 1~dl 2~sh 0R1 1R2 2R3 0E0 1E7 2E11 0R4 1R5 2R6 2K 1C1 0Y 0R7 1X 1R8 2Y 2R0 2E13 0E2",
+                "9003 2 33 0~dhf 1~hg 0+s 0R1 1R1 0E3 1Y 1R2 1E10 0R3 0X 0R4 1R5 0E4 1H 1R6 0R7",
+                "9004 1 34 0~dh 0@aR1 0@cE7 0R2 0R3 0T1 0R4 0E6 0K 0R5 0U1 0R6 0E12 0R7",
+                # readers without UTC clock: every kind of event stamped with Uptime, connection events too
+                "9005 2 35 0~u 1~du " + " ".join("%dE%d" % (d, v) for v in range(7, 14) for d in range(2)) + " 0X 1Y 0E1 1E6 0R3 1R5 0U1 1E7",
+                "9006 2 36 0~uh 1~u 0+2 1+n 0E8 1E13 0R3 1E9 0E11 1E11 0H 0E10 1E12 0R8 1R3"]
+        # a message is begun and the connection ends before the rest arrives: every class of offset
+        # x end of stream / close / reset, for reports and events
+        for n_, (e, kinds) in enumerate((("f", "R6 R7 R8 R2 E13 R0 R5 E9 R3 R1"), ("h", "R7 R6 E8 R8 R2 R5 E10 R4 R6 R7"), ("r", "R8 R7 R6 E13 R3 R2 R0 E12 R6 R8"))):
+            ks = kinds.split()
+            for half in range(2):
+                body = []
+                for c in range(5 * half, 5 * half + 5):
+                    body += ["0R1", "0Q%s%d%s" % (e, c, ks[c]), "0R2", "1E%d" % c]
+                scns.append("%d 2 %d %s 0E0 1R1" % (9010 + 2 * n_ + half, 40 + 2 * n_ + half, " ".join(body)))
         n = 1500 if thorough else 300
         if thorough:
             # the deadlines of the service itself (20 s): a command through the driver whose reply comes
@@ -389,8 +451,10 @@ def run(tier, seed, replay=None):
     res.coverage.update(
         evaluations=evals, distinct_nontrivial=len(nontriv), messages_sent=msgs,
         rule="scenario = 1-3 devices, for a third of them first connections that fail (SetReaderConfig rejected / dropped after the connection event / dropped on SetReaderConfig), "
-             "x random steps (requests whose deadline passes while the reader answers in pieces, late or never; ROAccessReport 7 content shapes, ReaderEventNotification 7 shapes incl. uptime-stamped and a mid-stream "
-             "connection success, 3+3 undecodable payloads, keep-alives, 5 kinds of commands) + the connection event of every connection; devices send concurrently, "
+             "for 45% a state of EdgeX / the reader (registered UP or DOWN at service start; UpdateDeviceOperatingState(Up) held back until released, 25 ms slow, failing; (Down) failing; reader without UTC clock), "
+             "x random steps (requests whose deadline passes while the reader answers in pieces, late or never; ROAccessReport 9 content shapes, ReaderEventNotification 14 shapes of which 9 uptime-stamped (every kind of event, two mid-stream "
+             "connection successes), 3+3 undecodable payloads, keep-alives, 5 kinds of commands, outages incl. refused connections until the device is marked DOWN, messages cut off at 10 classes of offset by end of stream / close / reset) "
+             "+ the connection event of every connection; devices send concurrently, "
              "commands are answered 8 ms late; distinct by (devices, seed, steps); non-trivial iff >= 2 devices, >= 5 decodable messages and at least one command or keep-alive",
         samples=samples, input_distribution=dict(dist), traces_validated_against_impl=evals,
         differing_on_first_run=n_first, trusted_base=res.assumptions)
